@@ -36,7 +36,7 @@ def run(tier: str, seed: int) -> int:
     rng = np.random.default_rng(seed)
     work = os.path.join(tlc.SCRATCH, f"c12.{os.getpid()}")
     os.makedirs(work, exist_ok=True)
-    dn = [2008, 2009, 2012, 2013, 2016, 2049, 2098, 3006, 3007, 3008, 3009, 3049] if tier == "quick" else \
+    dn = [2006, 2008, 2009, 2012, 2013, 2016, 2049, 2098, 3006, 3007, 3008, 3009, 3049] if tier == "quick" else \
         [2000 + n for n in list(range(6, 25)) + [49, 98, 103, 196]] + [3000 + n for n in list(range(6, 13)) + [49]]
     cfg = os.path.join(work, "MC_Forcing.cfg")
     tlc.write_cfg(cfg, constants={"DNSet": "{" + ",".join(map(str, dn)) + "}", "MaxMode": 4, "MaxSteps": 6}, invariants=INVS)
@@ -62,7 +62,7 @@ def run(tier: str, seed: int) -> int:
             gamma = float(rng.choice([1.0, -0.6, 2.5]))
             nu = float(rng.choice([0.01, 0.2]))
             drag = float(rng.choice([0.0, -0.1, 0.05]))
-            dt = float(rng.choice([0.01, 0.3]))
+            dt = float(rng.choice([0.01, 0.3, 1e-6]))     # 1e-6: |sigma dt| ~ 1e-8, where a closed-form (exp(z)-1)/z has lost half its digits
             sigma = drag - nu * (km * omega) ** 2
             g = growth(sigma, nsteps * dt)
             want = laminar_field(D, N, st["forcing"], wfac, omega, gamma, g)
